@@ -101,13 +101,23 @@ pub struct ExpectedHead {
     pub synth: Vec<Hdr>,
     /// acceptable alternative values for a synthesised Host
     pub host_alt: Vec<Vec<u8>>,
+    /// per entry of `fixed`: the line may be absent (an inherited header that a redirect may or
+    /// may not carry over: C13 says when Authorization must be absent, not that it must be kept)
+    pub optional: Vec<bool>,
 }
 
 /// `suppressed`: lower-case names of inherited (original) headers a redirect suppresses.
 pub fn expected_head(c: &ReqCfg, suppressed: &[&str]) -> ExpectedHead {
+    expected_head_opt(c, suppressed, &[])
+}
+
+/// `optional_names`: lower-case names of inherited headers that may or may not be carried over.
+pub fn expected_head_opt(c: &ReqCfg, suppressed: &[&str], optional_names: &[&str]) -> ExpectedHead {
     let mut fixed: Vec<Hdr> = c.added.iter().map(|(n, v)| (n.to_ascii_lowercase(), v.clone())).collect();
+    let mut optional = vec![false; fixed.len()];
     for (n, v) in grouped(&c.orig) {
         if !suppressed.contains(&n.as_str()) {
+            optional.push(optional_names.contains(&n.as_str()));
             fixed.push((n, v));
         }
     }
@@ -132,6 +142,7 @@ pub fn expected_head(c: &ReqCfg, suppressed: &[&str]) -> ExpectedHead {
         fixed,
         synth,
         host_alt,
+        optional,
     }
 }
 
@@ -153,6 +164,15 @@ pub fn compare_head(p: &ParsedReq, e: &ExpectedHead) -> Result<(), String> {
             fi += 1;
             continue;
         }
+        // optional expected lines that are not there: look past them for a match
+        let mut fj = fi;
+        while fj < e.fixed.len() && e.optional[fj] && !(e.fixed[fj].0 == *n && e.fixed[fj].1 == *v) {
+            fj += 1;
+        }
+        if fj > fi && fj < e.fixed.len() && e.fixed[fj].0 == *n && e.fixed[fj].1 == *v {
+            fi = fj + 1;
+            continue;
+        }
         if let Some(pos) = synth_left.iter().position(|s| s.0 == *n && (s.1 == *v || (n == "host" && e.host_alt.iter().any(|a| a == v)))) {
             synth_left.remove(pos);
             continue;
@@ -164,6 +184,9 @@ pub fn compare_head(p: &ParsedReq, e: &ExpectedHead) -> Result<(), String> {
             fi,
             e.fixed.get(fi).map(|h| format!("{}: {}", h.0, crate::json::show_bytes(&h.1)))
         ));
+    }
+    while fi < e.fixed.len() && e.optional[fi] {
+        fi += 1;
     }
     if fi < e.fixed.len() {
         return Err(format!("header {:?}: {:?} is missing on the wire", e.fixed[fi].0, crate::json::show_bytes(&e.fixed[fi].1)));
